@@ -66,6 +66,7 @@ S["C02"] = dict(title="Restart resumes exactly the unacknowledged set, at any st
   outside=["more than one record with a Save in progress","stores violating the contract"])
 S["C16"] = dict(title="A damaged Persistence never bricks the session: adopt, warn, connect, go on", technique=TECH+"; AdoptSession on a damaged arbitrary PINV store, observed through resend and a follow-up publish", harnesses=[
     H("verifH_C16_adopt", "PINV store with <= k outbound records altered / truncated / removed, stray entries, limits in 3 classes: no fatal, warnings for unusable/abandoned records, resend succeeds with genuine packets in order, placeholders match, new publish does not collide", T({"W":2,"W1":1,"damage":1,"orders":1,"markers":1,"maxcls":1,"strays":2}, time_sec=900), T({"W":2,"damage":2,"orders":2,"markers":1,"maxcls":2}, time_sec=3000, maxpaths=5000000), ("abandoned-with-warning","end")),
+    H("verifH_C16_adopt", "same, runs with records already missing inside (several gaps in one run, gaps of 1 or 2 identifiers, ring position free)", T({"W":1,"W1":3,"W1min":2,"sparse":1,"damage":0,"orders":1,"markers":1,"maxcls":1,"strays":1}, time_sec=900), T({"W":2,"W1":4,"W1min":2,"sparse":1,"damage":1,"orders":1,"markers":1,"maxcls":1,"strays":1}, time_sec=3000, maxpaths=5000000), ("abandoned-with-warning","end")),
     H("verifH_C16_clientid", "damaged client-identifier record: reported, or a connect can succeed", reach=()),
   ],
   assumptions=["records forged with a valid checksum are excluded (as the property says); damage is modelled as a failing checksum, a value shorter than 12 bytes, or removal (detection itself is C15)",
